@@ -39,6 +39,7 @@ META = {
 
 LEVELS = [1, 3, 9]
 ROUTES = ["interp", "java"]
+TERMINATING = ("done", "halt", "uncaught")
 RUN_TIMEOUT = 40          # seconds per tool invocation (a normal one takes well under a second)
 
 
@@ -49,10 +50,17 @@ def digest(text):
 
 
 def spec_stdout(e):
-    """The standard output the specification's behaviour amounts to in the libaldor dialect: there `error` writes its
-    message and the run time its halt notice to the standard error stream, so the last three atoms of a halted
-    behaviour (message, newline, halt notice; AldorSem.EvError) are not part of stdout."""
-    if e["status"] == "halt":
+    """The standard output the specification's behaviour amounts to in the libaldor dialect.  There `error` writes its
+    message, and the run time its notice about a halt or an unhandled exception, to the standard error stream, so the
+    last three atoms of such a behaviour (AldorSem.EvError: message, newline, halt notice; ThrTop: "Unhandled
+    Exception: ", name, newline) are not part of stdout."""
+    if e["status"] in ("halt", "uncaught"):
+        tail = e["atoms"][-3:]
+        ok = len(tail) == 3 and all(isinstance(t, str) for t in tail) and \
+            ((e["status"] == "halt" and tail[1] == "\n" and "Halt" in tail[2]) or
+             (e["status"] == "uncaught" and tail[0] == "Unhandled Exception: " and tail[2] == "\n"))
+        if not ok:
+            raise vlib.MachineryError("unexpected end of a %s behaviour: %r" % (e["status"], tail))
         return render.expected_text(e["atoms"][:-3])
     return e["out"]
 
@@ -128,10 +136,10 @@ def campaign(chk, build, progs, name, workdir, stats, corrupt=None):
     for p in progs:
         a, c = e64[p["id"]], e32[p["id"]]
         st = a["status"]
-        if st in ("done", "halt") and (a["status"], spec_stdout(a)) == (c["status"], spec_stdout(c)):
+        if st in TERMINATING and (a["status"], spec_stdout(a)) == (c["status"], spec_stdout(c)):
             members.append(p)
             stats[st] = stats.get(st, 0) + 1
-        elif st in ("done", "halt"):
+        elif st in TERMINATING:
             stats["width-dependent"] = stats.get("width-dependent", 0) + 1
         else:
             stats[st] = stats.get(st, 0) + 1
